@@ -236,8 +236,8 @@ def flag_enforced(prog, r, flagname, checker):
         if atom[0] == 'truthy':
             e = atom[1]
             if e.get('k') == 'bin' and e['op'] == '&' and is_member(e['l'], 'flags', 'MessageHandler') \
-                    and is_int(e['r'], flag):
-                return ('flag', flag)
+                    and is_int(e['r']):
+                return ('flag', e['r']['v'])
         return None
 
     def on_event(user, ev, ctx):
@@ -248,7 +248,10 @@ def flag_enforced(prog, r, flagname, checker):
             if is_member(fe, 'handler', 'MessageHandler'):
                 ncalls[0] += 1
                 a = ctx.atom(('flag', flag))
-                if a is None:
+                other_true = any(k[0] == 'flag' and k[1] != flag and v is True for k, v in ctx.atoms().items())
+                if a is None and other_true:
+                    pass      # an `else if` chain: a stronger flag was taken instead
+                elif a is None:
                     ctx.report('handler invoked without testing mh->flags & %s' % flagname, ev['line'],
                                key='untested')
                 elif a is True and not any(ctx.result_known(c) is True for c in chk):
